@@ -52,6 +52,18 @@ NoTieK(Ek, th, kr, g, fder) ==
    \A gp \in {Borders(Ek, th, kr)[j] : j \in 1..Len(Borders(Ek, th, kr))} : \A i \in 0..(NEFx(g, fder) - 1) :
        GroupSum(Ek, gp) * g.Q # GroupSize(gp) * (EFminN(g, fder) + i * g.d)
 
+(* named exclusion: no level of the (extended) Fermi grid lies inside the energy span [E[ib1], E[ib2-1]] of a band group of
+   more than one band.  The property counts a degenerate group whole; at which energy inside its span the group switches
+   from "above" to "below" the level (the code: its mean energy) is a free choice of the implementation that the binding
+   does not demand.  (For groups of exactly equal energies this is NoTie.) *)
+NoLevelInsideGroupK(Ek, th, kr, g, fder) ==
+   \A gp \in {Borders(Ek, th, kr)[j] : j \in 1..Len(Borders(Ek, th, kr))} : \A i \in 0..(NEFx(g, fder) - 1) :
+       GroupSize(gp) > 1 => LET x == EFminN(g, fder) + i * g.d IN ~(Ek[gp[1] + 1] * g.Q <= x /\ x <= Ek[gp[2]] * g.Q)
+(* a single Fermi level: the code cannot know a spacing and takes dEF = 0.001; the model's grid then has n = 1 and its d is
+   that step (the harness chooses the energy unit accordingly, which is not a binary fraction: threshold comparisons of
+   non-zero gaps would not be exact, hence th = 0 in this class) *)
+SingleLevelOK(g, th) == g.n = 1 => th = 0
+
 GroupValue(Vk, gp) == LET S[b \in gp[1]..gp[2]] == IF b = gp[1] THEN 0 ELSE S[b - 1] + Vk[b] IN S[gp[2]]
 (* non-additive formulas: _values[n] = trace over bands 0..n-1 ; values[n] = _values[ib2] - _values[ib1] *)
 GroupValueNonAdditive(Vk, gp) == GroupValue(Vk, <<0, gp[2]>>) - GroupValue(Vk, <<0, gp[1]>>)
